@@ -9,6 +9,7 @@ REQ = "From SCK Require Import ElicitM ElicitRules RunElicit."
 KINDS = ["unit", "skew", "ties", "zero", "straddle"]
 
 class C14(Prop):
+    layouts = True
     translators = ['elicitor', 'bsearch', 'rootn']   # the three binary_search functions and Elicitor.__init__ / Elicitor.elicit regenerated from elicitation_utils.py on every run
     pid = "C14"
     sources = ["socialchoicekit/elicitation_voting.py", "socialchoicekit/elicitation_allocation.py", "socialchoicekit/elicitation_matching.py",
@@ -43,7 +44,11 @@ class C14(Prop):
                     n2 = rng.choice([x for x in range(max(2, k, k2), 9) if x != n] or [n + 1])
                     Pa, Va = E.gen_pair(rng, n2, n2, "int", k); Pb, Vb = E.gen_pair(rng, n2, n2, "int", k2)
                     pre = [dict(P=Pa, V=Va, P2=Pb, V2=Vb)]
-                yield dict(entry="DoubleLambdaTSF.get_simulated_cardinal_profiles", family="double_" + kind + ("_reuse" if pre else ""), rule="Double", P=P, V=V, P2=P2, V2=V2, k=k, k2=k2, side=i % 8 // 4, prelude=pre)
+                c = dict(entry="DoubleLambdaTSF.get_simulated_cardinal_profiles", family="double_" + kind + ("_reuse" if pre else ""), rule="Double", P=P, V=V, P2=P2, V2=V2, k=k, k2=k2, side=i % 8 // 4, prelude=pre,
+                         dtype=["int64", "float", "int32"][(i // 4) % 3])
+                if (i // 4) % 4 == 1 and not pre:
+                    c["same_profile_first"] = rng.randint(1, n); c["family"] += "_sameprofile"
+                yield c
                 continue
             if rule in ("TSF", "M2Q"):
                 n = m
@@ -57,7 +62,11 @@ class C14(Prop):
                 m2 = rng.choice([x for x in range(max(2, k), 13) if x != m] or [m + 1]); n2 = m2 if rule in ("TSF", "M2Q") else rng.randint(1, 3)
                 P0, V0 = E.gen_pair(rng, n2, m2, "unit", k)
                 pre = [dict(P=P0, V=V0)]
-            yield dict(entry=ent, family=rule.lower() + "_" + kind + ("_reuse" if pre else ""), rule=rule, P=P, V=V, k=k, ezi=bool(i % 3), dtype=("int64" if i % 5 else "int32"), prelude=pre)
+            c = dict(entry=ent, family=rule.lower() + "_" + kind + ("_reuse" if pre else ""), rule=rule, P=P, V=V, k=k, ezi=bool(i % 3),
+                     dtype=["int32", "int64", "float", "int64", "float"][i % 5], prelude=pre)      # ranks as the caller stores them (compute_ordinal_profile returns float64 ranks)
+            if i % 4 == 1 and not pre:     # history: the same profile object is first run through the rule with another k / lambda
+                c["same_profile_first"] = rng.choice([x for x in range(1, m + 1) if x != k] or [k]); c["family"] += "_sameprofile"
+            yield c
         for c in self.crowded(rng, tier):
             yield c
 
